@@ -3,7 +3,7 @@ import common
 import apicheck as A
 
 PROFILE = dict(p_dangling_style=0.3, p_unknown=0.2, p_break=0.25, p_sym=0.15, p_image=0.2, style_map=0.5, p_note=0.2, p_comment=0.15, p_textbox=0.1,
-               p_table=0.2, p_pstyle=0.5, p_rstyle=0.4, separators=True, p_embedded_map=0.15)
+               p_table=0.2, p_pstyle=0.5, p_rstyle=0.4, separators=True, p_embedded_map=0.15, p_cross_style=0.2)
 CLEAN = dict(p_dangling_style=0.0, p_unknown=0.0, p_break=0.0, p_sym=0.0, p_image=0.0, style_map=0.0, p_pstyle=0.0, p_rstyle=0.0, p_numbering=0.0,
              p_embedded_map=0.0, p_altcontent=0.0, p_tstyle=0.0, p_sdt=0.05, p_table=0.2, p_note=0.2, p_textbox=0.1, optional_absent=0.3)
 
@@ -26,18 +26,65 @@ def clean_silent(case, r):
     return ["a document made only of supported constructs reports %r" % r["messages"]] if r.get("messages") else []
 
 
+STYLE_REFS = {"w:pStyle": ("paragraph", "Paragraph"), "w:rStyle": ("character", "Run"), "w:tblStyle": ("table", "Table")}
+
+
+def undefined_styles_reported(case, r):
+    """an independent reading of one clause on the package itself (no model): a paragraph or table directly in the body,
+    and a run directly in such a paragraph, is always read; when its style ID is not defined FOR THAT KIND of style in the
+    styles part, the warning naming kind and ID must be among the messages - whatever other kinds of style share the ID
+    and whatever was referenced before."""
+    def kids(node, name):
+        return [c for c in node[2] if not isinstance(c, str) and c[0] == name]
+
+    def ref(node, props, tag):
+        for pr in kids(node, props)[:1]:
+            for st in kids(pr, tag)[:1]:
+                return dict((k, v) for k, v in st[1]).get("w:val")
+        return None
+    xmls = [p["xml"] for p in case["parts"] if "xml" in p]
+    defined = set()
+    for x in xmls:
+        if x[0] == "w:styles":
+            for s in kids(x, "w:style"):
+                a = dict((k, v) for k, v in s[1])
+                defined.add((a.get("w:type"), a.get("w:styleId")))
+    refs = []
+    for x in xmls:
+        if x[0] == "w:document":
+            for body in kids(x, "w:body")[:1]:
+                for b in body[2]:
+                    if isinstance(b, str):
+                        continue
+                    if b[0] == "w:p" and any(kids(rp, "w:del") for pp in kids(b, "w:pPr") for rp in kids(pp, "w:rPr")):
+                        continue        # a deleted paragraph mark: the paragraph is merged into the next one, its own properties are not read
+                    if b[0] == "w:p":
+                        refs.append(("w:pStyle", ref(b, "w:pPr", "w:pStyle")))
+                        refs.extend(("w:rStyle", ref(run_, "w:rPr", "w:rStyle")) for run_ in kids(b, "w:r"))
+                    elif b[0] == "w:tbl":
+                        refs.append(("w:tblStyle", ref(b, "w:tblPr", "w:tblStyle")))
+    probs = []
+    for tag, sid in refs:
+        kind, word = STYLE_REFS[tag]
+        if sid is not None and (kind, sid) not in defined:
+            want = "%s style with ID %s was referenced but not defined in the document" % (word, sid)
+            if want not in r.get("messages", []) and not probs:
+                probs.append("an undefined style ID is not reported: %s %s in the body has no %s style definition, the warning %r is missing" % (tag, sid, kind, want))
+    return probs
+
+
 def run(out, tier, seed, model_ok):
     n = common.deepen(1500 if tier == "quick" else 20000)
     cs = A.gen_cases(seed, n, PROFILE, sm=dict(junk=0.25), tag="c16-")
     for i, c in enumerate(cs):
         if i % 4 == 0:
             c["options"]["styleMap"] = (c["options"].get("styleMap") or "") + "\ncomment-reference => sup"
-    run_ = A.ApiRun(out, "C16", model_ok, project, observers=[once], name="messages")
+    run_ = A.ApiRun(out, "C16", model_ok, project, observers=[once, undefined_styles_reported], name="messages")
     run_.run(cs, nontrivial=lambda c, r: bool(r.get("messages")))
     clean = A.gen_cases(seed + 77, n // 3, CLEAN, options={}, tag="c16clean-")
     for c in clean:
         c["options"] = {k: v for k, v in c["options"].items() if k in ("idPrefix", "ignoreEmpty")}
-    run2 = A.ApiRun(out, "C16", model_ok, project, observers=[once, clean_silent], name="clean")
+    run2 = A.ApiRun(out, "C16", model_ok, project, observers=[once, clean_silent, undefined_styles_reported], name="clean")
     run2.run(clean, nontrivial=lambda c, r: True)
     out.rule = ("documents with anomalies injected at any depth (body, tables, notes, comments, text boxes): unknown elements, undefined style ids, styled paragraphs/runs "
                 "no mapping recognises, unsupported breaks/symbols, blips without image, unlikely image types, unreadable style-map lines; observation = the exact ordered "
@@ -48,5 +95,5 @@ def run(out, tier, seed, model_ok):
 
 
 def replay(out, payload, model_ok):
-    obs = [once, clean_silent] if payload["case"].get("check") == "clean" else [once]
+    obs = [once, clean_silent, undefined_styles_reported] if payload["case"].get("check") == "clean" else [once, undefined_styles_reported]
     A.replay_case(out, "C16", model_ok, payload, project, obs)
